@@ -34,6 +34,33 @@ class C09(EvalFamProp):
             D(M({'c': M({}, tag={'k': 'call', 'f': 'rec.f'}), 'p': X('c'), 'q': X('p'), 'l': Q([X('q'), X('c')])})),
         ]
 
+    def gen_cases(self, rng, n, tier):
+        out = list(super().gen_cases(rng, n, tier))
+        # reference graphs: every key points to a random key (a functional graph has chains, fan-in, cycles and
+        # 'lassos': a tail leading into a cycle it is not part of) or holds a terminal; key order is random
+        for i in range(max(4, n // 5)):
+            m = rng.choice([2, 3, 4, 5, 6])
+            names = rng.sample(['a', 'b', 'c', 'd', 'e', 'k', 'x', 'y'], m)
+            p_ref = rng.choice([0.5, 0.7, 0.9, 1.0])
+            items = []
+            for nm in names:
+                if rng.random() < p_ref:
+                    tgt = rng.choice(names)
+                    v = Stext(tgt, 'xref')
+                    r = rng.random()
+                    if r < 0.2: v = Q([v])
+                    elif r < 0.3: v = M([('in', v)])
+                    elif r < 0.4: v = M([(0, v)], tag={'k': 'call', 'f': 'rec.f'})
+                else:
+                    v = rng.choice([S(1), Q([S(1), S(2)]), M([('z', S(3))]), M([], tag={'k': 'call', 'f': 'rec.g'})])
+                items.append((nm, v))
+            docs = [{'raw': M(items)}]
+            if rng.random() < 0.3 and len(items) > 1:     # part of the graph arrives in a later document
+                cut = rng.randrange(1, len(items))
+                docs = [{'raw': M(items[:cut])}, {'raw': M(items[cut:])}]
+            out[i % len(out)] = {'docs': docs, 'style': ['flow', 0, 0]}
+        return out
+
     def oracle(self, case, io, ans):
         cfg = io['cfg']
         if cfg.get('err') == 'HANG':
